@@ -49,6 +49,7 @@ Mutants this was built against (scratch worktree; caught by the oracle with a co
   h1 harmless: set comprehension for conflicts_related, inverted if/else with continue (clean)
   fix: ForbiddenControlFileError for named control paths in GitWorkingTree.smart_add (clean, mode `H`)
 """
+import itertools
 import os
 import shutil
 
@@ -99,6 +100,29 @@ def add_conflicts_to_spec(rng, spec):
             spec["entries"].append([p + "/s/b.txt", "f", False])
             used.update([p, p + "/a", p + "/README", p + "/s", p + "/s/b.txt"])
             dirs.append(p)
+    if rng.random() < 0.5:
+        # sibling directories where one name is a string prefix of the next in sorted order without
+        # being its parent (_gather_dirs_to_add compares sorted neighbours)
+        d = rng.choice(dirs)
+        pre = d + "/" if d else ""
+        pv = d == "" or next((e[2] for e in spec["entries"] if e[0] == d), False) or spec["fmt"] == "git"
+        fam = rng.choice([["pd", "pd2", "pd-x", "pdd"], ["doc", "docs"], ["lib", "lib64", "lib.old"], ["src", "src-old"]])
+        group = []
+        for name in fam:
+            p = pre + name
+            if p in used:
+                continue
+            used.add(p)
+            group.append(p)
+            spec["entries"].append([p, "d", bool(pv and spec["fmt"] != "git" and rng.random() < 0.3)])
+            for fn in rng.sample(["guide.txt", "a", "c.o", "x~"], rng.randint(1, 2)):
+                spec["entries"].append([p + "/" + fn, "f", False])
+                used.add(p + "/" + fn)
+            if rng.random() < 0.3:
+                spec["entries"].append([p + "/s", "d", False])
+                spec["entries"].append([p + "/s/b.txt", "f", False])
+                used.update([p + "/s", p + "/s/b.txt"])
+        spec["prefix_group"] = group
     for _ in range(rng.choice([0, 1, 1, 2])):
         d = rng.choice(dirs)
         pre = d + "/" if d else ""
@@ -328,6 +352,13 @@ def run_layout(ctx, spec, viol, cases, lines, outs, choices=None):
             a, b = ctx.rng.choice(cands), ctx.rng.choice(cands + ["."])
             if a != b:
                 choices.append(([a, b], ctx.rng.random() < 0.8))
+        group = [g for g in spec.get("prefix_group", []) if g in snap]
+        for a, b in itertools.permutations(group, 2):
+            choices.append(([a, b], True))
+        if len(group) >= 3:
+            tri = group[:3]
+            choices.append((tri, True))
+            choices.append((tri[::-1], True))
         # malformed stream: missing paths and control files
         for _ in range(max(1, len(choices) // 10)):
             bad = ctx.rng.choice(["nope", "d/nope", own_ctl + "/" + ("README" if fmt == "2a" else "HEAD"), own_ctl])
@@ -435,20 +466,41 @@ SCENARIOS = [
          ["build", "*.o"], [["text", "m"]]),
      [(["."], True), (["old~"], True), (["c.o"], False), (["build"], True), (["n"], True), (["n/x"], True),
       (["m.OTHER"], True), (["w/e"], True), (["w/e", "."], True), ([".bzr/README"], True)]),
+    # named sibling directories whose names are string prefixes of each other (seeded change:
+    # `path.startswith(prev_dir)` in _gather_dirs_to_add)
+    (_sc("2a", [["v", "f", True], ["doc", "d", False], ["doc/index.txt", "f", False], ["docs", "d", False],
+                ["docs/guide.txt", "f", False], ["docs/s", "d", False], ["docs/s/b.txt", "f", False],
+                ["lib", "d", True], ["lib/x", "f", True], ["lib/new", "f", False], ["lib64", "d", False],
+                ["lib64/so", "f", False], ["src", "d", False], ["src/a", "f", False], ["src-old", "d", False],
+                ["src-old/a", "f", False], ["src/src2", "d", False], ["src/src2/c", "f", False]]),
+     [(["doc", "docs"], True), (["docs", "doc"], True), (["lib", "lib64"], True), (["lib64", "lib"], True),
+      (["src", "src-old"], True), (["src-old", "src"], True), (["doc", "docs", "lib64"], True),
+      (["src", "src/src2"], True), (["doc", "docs"], False)]),
+    (_sc("git", [["v", "f", True], ["doc", "d", False], ["doc/index.txt", "f", False], ["docs", "d", False],
+                 ["docs/guide.txt", "f", False], ["lib", "d", False], ["lib/x", "f", True], ["lib/new", "f", False],
+                 ["lib64", "d", False], ["lib64/so", "f", False]]),
+     [(["doc", "docs"], True), (["docs", "doc"], True), (["lib", "lib64"], True), (["doc", "docs", "lib64"], True)]),
 ]
 
 
 def run(ctx):
     viol, cases, lines, outs = [], [], [], []
-    for spec, choices in SCENARIOS:
-        run_layout(ctx, spec, viol, cases, lines, outs, choices=list(choices))
     specs = []
+    pinned = [(spec, list(choices)) for spec, choices in SCENARIOS]
     cdir = os.path.join(env.VERIF, "corpus", "C11")
     if os.path.isdir(cdir):
         import json
         for fn in sorted(os.listdir(cdir)):
             if fn.endswith(".json"):
-                specs.append(json.load(open(os.path.join(cdir, fn)))["spec"])
+                rec = json.load(open(os.path.join(cdir, fn)))
+                if rec.get("calls"):
+                    item = (rec["spec"], [(n, bool(r)) for n, r in rec["calls"]])
+                    if not any(item[0] == p[0] for p in pinned):
+                        pinned.insert(0, item)
+                else:
+                    specs.append(rec["spec"])
+    for spec, choices in pinned:
+        run_layout(ctx, spec, viol, cases, lines, outs, choices=choices)
     ctx.extra["git_named_control_file"] = {"G": "versioned (as found)", "H": "refused"}[git_fmt_char()]
     for _ in range(ctx.pick(7, 70)):
         for fmt in ("2a", "git"):
